@@ -91,6 +91,10 @@ enum Event {
     ScannerSetMode1,
     DropA,
     NewC,
+    /// `Scanner::set_mode(1)` and then a new iterator from that scanner
+    SetModeThenNewC,
+    /// drop A (in whatever mode it is) and then a new iterator from the same scanner
+    DropAThenNewC,
 }
 
 fn cfgs() -> Vec<Cfg> {
@@ -172,6 +176,8 @@ pub fn run(tier: Tier) -> ! {
                         events.push((Event::ScannerSetMode1, pos));
                         events.push((Event::DropA, pos));
                         events.push((Event::NewC, pos));
+                        events.push((Event::SetModeThenNewC, pos));
+                        events.push((Event::DropAThenNewC, pos));
                     }
                     for (ev, pos) in events {
                         acc.runs += 1;
@@ -187,7 +193,13 @@ pub fn run(tier: Tier) -> ! {
                                         Event::None => {}
                                         Event::ScannerSetMode1 => s1.set_mode(1),
                                         Event::DropA => a = None,
-                                        Event::NewC => {
+                                        Event::NewC | Event::SetModeThenNewC | Event::DropAThenNewC => {
+                                            if ev == Event::SetModeThenNewC {
+                                                s1.set_mode(1);
+                                            }
+                                            if ev == Event::DropAThenNewC {
+                                                a = None;
+                                            }
                                             let mut c = s1.find_iter(i2);
                                             for o in &sc_script {
                                                 oc.push(apply(&mut c, *o));
@@ -222,9 +234,9 @@ pub fn run(tier: Tier) -> ! {
                         match r {
                             Err(p) => acc.viol.add("", || Violation { key: String::new(), summary: format!("interleaved run panicked: {p}"), replay: describe() }),
                             Ok((oa, ob, oc)) => {
-                                let a_ok = oa.as_slice() == &want_a[..oa.len()] && (ev == Event::DropA || oa.len() == want_a.len());
+                                let a_ok = oa.as_slice() == &want_a[..oa.len()] && (ev == Event::DropA || ev == Event::DropAThenNewC || oa.len() == want_a.len());
                                 let b_ok = &ob == want_b;
-                                let c_ok = ev != Event::NewC || want_c.map(|w| &oc == w).unwrap_or(true);
+                                let c_ok = !matches!(ev, Event::NewC | Event::SetModeThenNewC | Event::DropAThenNewC) || want_c.map(|w| &oc == w).unwrap_or(true);
                                 if !(a_ok && b_ok && c_ok) {
                                     acc.viol.add("", || {
                                         let mut d = describe();
@@ -374,7 +386,7 @@ pub fn run(tier: Tier) -> ! {
     cov.insert("samples".into(), json!(total.samples.items));
     cov.insert("evaluations".into(), json!(total.runs));
     cov.insert("distinct_nontrivial".into(), json!(total.nontrivial));
-    cov.insert("rule".into(), json!("one evaluation = one complete schedule: a pair of per-iterator scripts (all sequences of <= L ops from next/peek_n(2)/set_mode(1)/set_offset(1)), one interleaving of the two, one scanner-level event (none / Scanner::set_mode(1) / drop A / create and run a third iterator) at one position; every schedule is enumerated once and executed on the real objects; non-trivial = at least two iterator operations of which at least one is next()"));
+    cov.insert("rule".into(), json!("one evaluation = one complete schedule: a pair of per-iterator scripts (all sequences of <= L ops from next/peek_n(2)/set_mode(1)/set_offset(1)), one interleaving of the two, one scanner-level event (none / Scanner::set_mode(1) / drop A / create and run a third iterator / set_mode(1) then a third iterator / drop A then a third iterator) at one position; every schedule is enumerated once and executed on the real objects; non-trivial = at least two iterator operations of which at least one is next()"));
     cov.insert("exhaustive".into(), json!(true));
     cov.insert("max_script_length".into(), json!(max_len));
     cov.insert("distinct_observation_signatures".into(), json!(total.outcomes.len()));
